@@ -84,12 +84,14 @@ def pushSecondary (op : Options) (io : IndentOpts) (attrs : List AAttr) (o : Out
   let o2 := (attrs.foldl (secStep op io attrs.length) (o1, 0)).1
   if io.afterAttribute.isEmpty then o2 else o2.pushString op io.afterAttribute
 
-/-- one line of multi-line text -/
-def textLineStep (op : Options) (io : IndentOpts) (mx : Nat) (acc : Out) (x : List VTok × Nat) : Out :=
-  let a1 := acc.pushNewline op (some none)
+/-- one line of multi-line text: its fields are numbered from the value's base `field`; the accumulator carries the largest
+    next-free number seen so far -/
+def textLineStep (op : Options) (io : IndentOpts) (mx : Nat) (field : Nat) (acc : Out × Nat) (x : List VTok × Nat) : Out × Nat :=
+  let a1 := acc.1.pushNewline op (some none)
   let a2 := if io.beforeTextLine.isEmpty then a1 else a1.push io.beforeTextLine
-  let a3 := pushTokens op x.1 a2
-  if io.afterTextLine.isEmpty then a3 else (a3.push (List.replicate (mx - x.2) 32)).push io.afterTextLine
+  let a3 := pushTokens op x.1 { a2 with field := field }
+  let nf := max acc.2 a3.field
+  (if io.afterTextLine.isEmpty then a3 else (a3.push (List.replicate (mx - x.2) 32)).push io.afterTextLine, nf)
 
 def pushValue (op : Options) (io : IndentOpts) (node : ANode) (o : Out) : Out :=
   if !valueTruthy node && !node.children.isEmpty then o else
@@ -102,8 +104,8 @@ def pushValue (op : Options) (io : IndentOpts) (node : ANode) (o : Out) : Out :=
     let lens := lines.map valueLength
     let mx := lens.foldl max 0
     let o1 := { o with level := o.level + 1 }
-    let o2 := (lines.zip lens).foldl (textLineStep op io mx) o1
-    { o2 with level := o2.level - 1 }
+    let r := (lines.zip lens).foldl (textLineStep op io mx o.field) (o1, o.field)
+    { r.1 with level := r.1.level - 1, field := r.2 }
 
 mutual
 def indentElement (op : Options) (io : IndentOpts) : Nat → ANode → Nat → Bool → Out → Out
